@@ -58,9 +58,10 @@ def run(ctx):
                     else:
                         fc[f][i] = cur + k * R
                     entries.append(("forge %s%s+%dr" % (f, "" if i is None else "[%d]" % i, k), fc, dict(value=cur, forged=cur + k * R)))
-        sw = copy.deepcopy(base)
-        sw["pre"], sw["post"] = sw["post"], sw["pre"]
-        entries.append(("swap pre/post", sw, None))
+        if base["pre"] != base["post"]:
+            sw = copy.deepcopy(base)
+            sw["pre"], sw["post"] = sw["post"], sw["pre"]
+            entries.append(("swap pre/post", sw, None))
         plan.append((w, entries))
         cases += [e[1] for e in entries]
     hs = c08.spec_hashes(ctx, cases, "PackingMC witnesses, perturbations, forged encodings")
